@@ -354,7 +354,11 @@ impl Factors {
         self.wdata
             .retain(|f| f.source != Source::COGEN || has_cogen);
         // Mantenemos factores a usos no EPB si hay uso de no EPB
-        let has_nepb = components.data.iter().any(|c| c.is_nepb_use());
+        // (mismo criterio que el balance: todo consumo que no es EPB ni de cogeneración)
+        let has_nepb = components
+            .data
+            .iter()
+            .any(|c| (c.is_used() || c.is_aux()) && !c.is_epb_use() && !c.is_cogen_use());
         self.wdata.retain(|f| f.dest != Dest::A_NEPB || has_nepb);
         // Mantenemos factores de electricidad in situ si no hay producción de ese tipo
         let has_elec_onsite = components
